@@ -3,6 +3,7 @@ import PolyVerif.Model.GltfSpec
 import PolyVerif.Model.GltfDedup
 import PolyVerif.Model.GltfTopo
 import PolyVerif.Model.GltfGlb
+import PolyVerif.Model.GltfShape
 
 /-
   C06 driver: parses scene descriptions / parsed-document summaries from the harness, answers with the model's
@@ -461,6 +462,26 @@ def handle (op : String) (args : List String) : Option String :=
         let b ← pBytes
         pure (s, d, b)) args
       pure (boolStr (carriesScene s d b))
+  | "c06.holds.rewrite" => do
+      -- the same scene written before and after a rejected write: same file, same payload (lengths and hashes)
+      match args with
+      | [l1, h1, l2, h2, bl1, bh1, bl2, bh2] => pure (boolStr (l1 == l2 && h1 == h2 && bl1 == bl2 && bh1 == bh2))
+      | _ => none
+  | "c06.holds.bigtext" => do
+      if args == ["write-failed"] then pure "false" else
+      let ((d, p), _) ← run (do
+        let d ← pDoc
+        kw "X"
+        let ok ← tok
+        let declared ← pNat
+        let tl ← pNat; let th ← tok
+        let gl ← pNat; let gh ← tok
+        let el ← pNat; let eh ← tok
+        let mm ← tok
+        let sd ← tok
+        pure (d, ({ b64ok := ok == "true", declared := declared, textLen := tl, textHash := th, glbLen := gl, glbHash := gh,
+                    expLen := el, expHash := eh, boundsOK := mm == "true", sameDoc := sd == "true" } : PayloadSummary))) args
+      pure (boolStr (bigTextOK d p))
   | "c06.holds.glbparse" => do
       -- the statement of glb_parse_write, checked on the IMPLEMENTATION's file with the Lean reader
       let ((f, j, b), _) ← run (do
